@@ -50,7 +50,7 @@ fn from_enum(name: &str, r: seq_more::EnumResult, exhaustive: bool, what: &str) 
         samples: r.samples.iter().map(|s| json!({"part": name, "build": build_name(), "case": s})).collect(),
         detail: json!({"part": name, "build": build_name(), "what": what, "cases": r.cases, "api_calls": r.steps, "distinct_outcomes": r.distinct}),
     };
-    if let Some((case, msg)) = r.violation {
+    for (case, msg) in r.violations {
         o.violations.push(SeqViol { case: case.clone(), message: msg, replay: json!({"kind": "seq", "part": name, "build": build_name(), "case": case}) });
     }
     o
@@ -241,6 +241,12 @@ pub fn run(p: &str, tier: Tier) -> SeqOut {
         "C05" => api_search(tier, true),
         "C10" => many_guards(),
         "C15" => c15(),
+        "C12" => from_enum(
+            "cross-kind-aliasing",
+            seq_more::c12_cross_kind(),
+            true,
+            "every pair (pointer kind of the reading container, pointer kind of the written container) over one allocation: Arc, Option<Arc>, Weak; 1 and S+1 guards; counts after the guards are gone",
+        ),
         "C16" => from_enum(
             "cache-programs",
             seq_more::c16(if tier == Tier::Quick { 6 } else { 8 }),
@@ -270,7 +276,7 @@ pub fn run(p: &str, tier: Tier) -> SeqOut {
 }
 
 pub fn has_seq_part(p: &str) -> bool {
-    matches!(p, "C02" | "C05" | "C10" | "C14" | "C15" | "C16" | "C17" | "C18" | "C20")
+    matches!(p, "C02" | "C05" | "C10" | "C12" | "C14" | "C15" | "C16" | "C17" | "C18" | "C20")
 }
 
 /// C19: the truth table printed by the typecheck crate (one rustc run), evaluated here.
